@@ -3,27 +3,43 @@ import P2PVerif.Lemmas.Hub
 /-! # C12 — Close ends everything promptly and for good
 Property theorems only, about the hub and queue models; the select skeleton is regenerated from the source.
 "Promptly" = the return transition is enabled and is the participant's only move; seconds and goroutine release
-are measured by the harness and reported as exploration (DESIGN.md section 6). -/
+are measured by the harness and reported as exploration (DESIGN.md section 6).
+(Bound variables carry explicit types because `s.rs[i]?` alone does not let Lean infer them.) -/
 namespace P2PVerif.C12
 open P2PVerif P2PVerif.Hub
 
 /-- ⊢ after Close every blocked Receive / ServeAsk / Deliver can return, and returns a non-nil error: in every
     state with `closed`, a receiver parked in either select and a deliverer parked in its select have their
-    closed-transition enabled, and it yields `closedErr` (never success). -/
+    closed-transition enabled, and it yields `closedErr` (never success). (The non-blocking select `sel1` exists
+    only in TellHub.Receive, so that conjunct is stated for `kind = .tell`.) -/
 theorem blocked_calls_return_after_close (sk : Skel) (hg : sk.good = true) (s : St) (hc : s.closed = true) :
-    (∀ i r, s.rs[i]? = some r → r.pc = .sel2 →
+    (∀ (i : Nat) (r : R), s.rs[i]? = some r → r.pc = .sel2 →
         ∃ s', step sk s (.rSel2Closed i) = some s' ∧ (s'.rs[i]?).map (·.pc) = some (.done .closedErr)) ∧
-    (∀ i r, s.rs[i]? = some r → r.pc = .sel1 →
+    -- original: (∀ i r, s.rs[i]? = some r → r.pc = .sel1 → ∃ s', step sk s (.rSel1Closed i) = some s' ∧ …)
+    -- false for an ask hub: `s` is an arbitrary state, `Skel.ask` has no non-blocking select (`s1Closed = false`,
+    -- which `good` allows for `kind = .ask`), so `step Skel.ask {closed := true, rs := [{pc := .sel1}]}
+    -- (.rSel1Closed 0) = none`. The non-blocking select exists only in TellHub.Receive: restricted to `kind = .tell`.
+    (sk.kind = .tell → ∀ (i : Nat) (r : R), s.rs[i]? = some r → r.pc = .sel1 →
         ∃ s', step sk s (.rSel1Closed i) = some s' ∧ (s'.rs[i]?).map (·.pc) = some (.done .closedErr)) ∧
-    (∀ j d, s.ds[j]? = some d → d.pc = .sel →
+    (∀ (j : Nat) (d : D), s.ds[j]? = some d → d.pc = .sel →
         ∃ s', step sk s (.dClosed j) = some s' ∧ (s'.ds[j]?).map (·.pc) = some (.done .closedErr 0)) :=
   Hub.blocked_calls_return_after_close sk hg s hc
+
+/-- ⊢ (why the `sel1` conjunct above is stated for tell hubs only) in an ask hub no receiver is ever parked in a
+    non-blocking select, for every schedule. -/
+theorem ask_never_sel1 (sk : Skel) (hk : sk.kind = .ask) (ls : List Lbl) (s : St) (hr : run sk {} ls = some s) :
+    ∀ (i : Nat) (r : R), s.rs[i]? = some r → r.pc ≠ .sel1 :=
+  Hub.ask_never_sel1 sk hk ls s hr
+
+-- the counterexample to the unrestricted conjunct: a good ask skeleton, an (unreachable) receiver at `sel1`
+example : Skel.ask.good = true ∧ step Skel.ask { closed := true, rs := [{ pc := .sel1 }] } (.rSel1Closed 0) = none := by
+  decide
 
 /-- ⊢ every call started after Close returns `closedErr` at its first step, and no call ever returns a nil
     error on a closed hub or `ok` without a callback: in every reachable state no participant is `done nilErr`. -/
 theorem after_close_error (sk : Skel) (hg : sk.good = true) (ls : List Lbl) (s : St) (hr : run sk {} ls = some s) :
-    (∀ i r, s.rs[i]? = some r → r.pc ≠ .done .nilErr) ∧ (∀ j d n, s.ds[j]? = some d → d.pc ≠ .done .nilErr n) ∧
-    (s.closed = true → ∀ i r, s.rs[i]? = some r → r.pc = .start →
+    (∀ (i : Nat) (r : R), s.rs[i]? = some r → r.pc ≠ .done .nilErr) ∧ (∀ (j : Nat) (d : D) (n : Nat), s.ds[j]? = some d → d.pc ≠ .done .nilErr n) ∧
+    (s.closed = true → ∀ (i : Nat) (r : R), s.rs[i]? = some r → r.pc = .start →
         ∃ s', step sk s (.rCheck i) = some s' ∧ (s'.rs[i]?).map (·.pc) = some (.done .closedErr)) :=
   Hub.after_close_error sk hg ls s hr
 
@@ -32,7 +48,7 @@ theorem after_close_error (sk : Skel) (hg : sk.good = true) (ls : List Lbl) (s :
     an enabled-nothing state and cannot spin. -/
 theorem closed_receiver_only_returns (sk : Skel) (hg : sk.good = true) (s s' : St) (i : Nat) (r : R) (l : Lbl)
     (hc : s.closed = true) (hr : s.rs[i]? = some r) (hpc : r.pc = .sel2)
-    (hnod : ∀ j d, s.ds[j]? = some d → d.pc ≠ .sel)
+    (hnod : ∀ (j : Nat) (d : D), s.ds[j]? = some d → d.pc ≠ .sel)
     (hl : l = .rSel2Closed i ∨ l = .rSel2Ctx i ∨ (∃ j, l = .rendezvous i j) ∨ l = .rCheck i ∨ l = .rSel1Closed i ∨
           l = .rSel1Default i ∨ (∃ n, l = .cbReturn i n))
     (hs : step sk s l = some s') :
@@ -43,7 +59,7 @@ theorem closed_receiver_only_returns (sk : Skel) (hg : sk.good = true) (s s' : S
     closed and no receiver is parked in a select with an open rendezvous case (they have all returned), no
     rendezvous transition is enabled any more — and a receiver that starts afterwards returns at its closed check. -/
 theorem no_callback_after_close_settles (sk : Skel) (hg : sk.good = true) (s : St) (hc : s.closed = true)
-    (hparked : ∀ i r, s.rs[i]? = some r → r.pc ≠ .sel1 ∧ r.pc ≠ .sel2) (i j : Nat) :
+    (hparked : ∀ (i : Nat) (r : R), s.rs[i]? = some r → r.pc ≠ .sel1 ∧ r.pc ≠ .sel2) (i j : Nat) :
     step sk s (.rendezvous i j) = none :=
   Hub.no_callback_after_close_settles sk hg s hc hparked i j
 
